@@ -54,6 +54,7 @@ def install(eng):
     M["core::ops::RangeInclusive::<Idx>::contains"] = m_range_incl_contains
     M["core::iter::range::<impl core::iter::Iterator for core::ops::Range<A>>::next"] = m_range_next
     M["core::clone::Clone::clone"] = NotImplementedModel
+    install_fmt(eng)
     M["core::slice::<impl [T]>::len"] = m_slice_len
     M["core::slice::<impl [T]>::get"] = m_slice_get
     M["core::array::<impl core::ops::Index<I> for [T; N]>::index"] = m_array_index
@@ -553,3 +554,116 @@ def m_array_index(eng, st, c, args, dest_tid, t):
             et = eng.types[a.tid].get("elem") if a.tid is not None else None
             out.append((s2, Ref(val=eng.fresh(et, ("select", eng.term(a), i.lin.key())))))
     return out
+
+
+# --------------------------------------------------------------------------------------------------
+# fmt: write!/format! become recorded output pieces (E7)
+
+from .sym import V  # noqa: E402
+from . import fmtdecode  # noqa: E402
+
+
+class FmtArg(V):
+    __slots__ = ("kind", "val")
+
+    def __init__(self, kind, val):
+        self.kind = kind
+        self.val = val
+
+    def __repr__(self):
+        return "FmtArg(%s,%r)" % (self.kind, self.val)
+
+
+class FmtArgs(V):
+    __slots__ = ("pieces", "args")
+
+    def __init__(self, pieces, args):
+        self.pieces = pieces
+        self.args = args
+
+    def __repr__(self):
+        return "FmtArgs(%r,%r)" % (self.pieces, self.args)
+
+
+def install_fmt(eng):
+    M = eng.models
+    M["core::fmt::Arguments::<'a>::from_str"] = m_args_from_str
+    M["core::fmt::Arguments::<'a>::new"] = m_args_new
+    for k in ("display", "debug", "lower_hex", "upper_hex", "lower_exp", "upper_exp", "pointer", "octal", "binary"):
+        M["core::fmt::rt::Argument::<'_>::new_" + k] = mk_argument(k)
+    M["core::fmt::Formatter::<'a>::write_fmt"] = m_write_fmt
+    M["core::fmt::Formatter::<'a>::write_str"] = m_write_str
+    M["core::fmt::format"] = m_format
+
+
+def m_args_from_str(eng, st, c, args, dest_tid, t):
+    s = _str_of(eng, st, args[0])
+    if s is None or s.s is None:
+        return NotImplemented
+    return [(st, FmtArgs([("lit", s.s)] if s.s else [], []))]
+
+
+def m_args_new(eng, st, c, args, dest_tid, t):
+    tmpl = _arr_of(eng, st, args[0])
+    arr = _arr_of(eng, st, args[1])
+    if tmpl is None or arr is None:
+        return NotImplemented
+    bs = []
+    for e in tmpl.els:
+        k = eng.const_of(st, e)
+        if k is None:
+            return NotImplemented
+        bs.append(k)
+    try:
+        pieces = fmtdecode.decode_template(bytes(bs))
+    except fmtdecode.DecoderUnsupported as e:
+        eng.event(st, "unmodelled", "DECODER-UNSUPPORTED %s" % e)
+        return NotImplemented
+    return [(st, FmtArgs(pieces, list(arr.els)))]
+
+
+def mk_argument(kind):
+    def m(eng, st, c, args, dest_tid, t):
+        v = args[0]
+        val = eng.deref(st, v) if isinstance(v, Ref) else v
+        # Display of a reference to a reference (&&str etc.)
+        while isinstance(val, Ref):
+            val = eng.deref(st, val)
+        return [(st, FmtArg(kind, val))]
+
+    return m
+
+
+def _ok_unit(eng, dest_tid):
+    vi = eng.variant_index(dest_tid, "Ok")
+    t = eng.types[dest_tid]
+    ftys = t["variants"][vi].get("ftys")
+    return Enum(dest_tid, vi, (Struct(ftys[0] if ftys else None, []),))
+
+
+def m_write_fmt(eng, st, c, args, dest_tid, t):
+    a = args[1]
+    if not isinstance(a, FmtArgs):
+        return NotImplemented
+    st.trace.append(("out", "fmt", a))
+    return [(st, _ok_unit(eng, dest_tid))]
+
+
+def m_write_str(eng, st, c, args, dest_tid, t):
+    s = _str_of(eng, st, args[1])
+    if s is None:
+        return NotImplemented
+    st.trace.append(("out", "str", s.s if s.s is not None else ("sym", s.sym)))
+    return [(st, _ok_unit(eng, dest_tid))]
+
+
+def m_format(eng, st, c, args, dest_tid, t):
+    a = args[0]
+    if not isinstance(a, FmtArgs):
+        return NotImplemented
+    return [(st, Opq(("string", a), dest_tid))]
+
+
+def outputs(st):
+    """The ordered output pieces written on this path."""
+    return [x for x in st.trace if isinstance(x, tuple) and x and x[0] == "out"]
